@@ -18,13 +18,19 @@ def oracle_many(cases, timeout=600):
     return res
 
 
-KNOWN_CLASSES = {"c01": ["kfa", "kfb", "kfc", "kfd", "kfe", "kff", "kfg"], "c04": ["kfa", "kfg"], "c06": ["kfa", "kfg"], "c07": [],
-                 "c08": ["kfb", "kfc", "kfd", "kfe", "kff", "kfg"],
+KNOWN_CLASSES = {"c01": ["kfa", "kfb", "kfc", "kfd", "kfe", "kff", "kfg", "kfi"], "c04": ["kfa", "kfg"], "c06": ["kfa", "kfg", "kfc"], "c07": [],
+                 "c08": ["kfb", "kfc", "kfd", "kfe", "kff", "kfg", "kfi"],
                  "c09": ["kfa", "kfg"], "c10w": ["kfg"], "c10": ["f4", "kfg"], "c11": [], "c19": [], "c05": []}
 
 
 def in_known_class(d, key):
-    return any(d.get(x) == "1" for x in KNOWN_CLASSES.get(key, []))
+    if any(d.get(x) == "1" for x in KNOWN_CLASSES.get(key, [])):
+        return True
+    # an output with syntax errors that falls into one of C04's known classes (F10, F20) breaks every tree-based
+    # observation as a consequence: it is the same finding, not a new one
+    if key not in ("c04", "c05", "c11") and d.get("c04") == "0" and any(d.get(x) == "1" for x in KNOWN_CLASSES["c04"]):
+        return True
+    return False
 
 
 def fails(d, key, respect_classes=True):
